@@ -587,7 +587,10 @@ Definition sess_record (g : cfg) (s : server) (c : conn) (ss : session) (r : req
             | Some (p, _) =>
                 match p with
                 | SPUDP =>
-                    if negb (r_udp_write_ok r)
+                    (* the firewall-opening writes go to the client ports the SESSION was set up with; sendto()
+                       refuses port 0. (r_udp_write_ok, the harness's own guess, is not consulted: a mutation may
+                       put "client_port=0-1" on a request other than the SETUP that counted) *)
+                    if existsb (fun m => (m_rtp m =? 0) || (m_rtcp m =? 0)) (s_medias ss)
                     then (* sm.start() failed (medias are started before the state changes, fix ba05e77):
                             the started medias are stopped, the writer is destroyed, the state stays PreRecord *)
                       Some (s, ss_with_writer ss false, st400, RErr)
